@@ -49,12 +49,18 @@ def run(ctx):
                                   label="design", timeout=3000, workers=ctx.pick(4, 8)))
             if not ctx.quick:
                 futs.append(ex.submit(vlib.tlc_mc, ctx, "AuthBatch_MC", "AuthBatch_MC_live.cfg", label="liveness", workers=2))
-        drv = ex.submit(vlib.go_driver, ctx, PKG, "^TestVerifAuthBatch(|Large|Concurrent)$", files=FILES, timeout=2400,
-                        env={"VERIF_SCENARIOS": n, "VERIF_BIG": 0 if ctx.quick else 1, "VERIF_LARGE": ctx.pick(1, 8),
-                             "VERIF_LARGE_REF": ctx.pick(0, 1), "VERIF_CONCURRENT": ctx.pick(8, 80)})
+        def drive():
+            return vlib.go_driver(ctx, PKG, "^TestVerifAuthBatch(|Large|Concurrent)$", files=FILES, timeout=2400,
+                                  env={"VERIF_SCENARIOS": n, "VERIF_BIG": 0 if ctx.quick else 1, "VERIF_LARGE": ctx.pick(1, 8),
+                                       "VERIF_LARGE_REF": ctx.pick(0, 1), "VERIF_CONCURRENT": ctx.pick(8, 80)})
+        drv = ex.submit(drive)
         for f in futs:
             f.result()
         rc, out = drv.result()
+    if rc != 0 and re.search(r"HANG: .*", out):
+        # a watchdog verdict counts only if the (seeded) recording hangs again: a stall of a loaded machine does not repeat
+        print("note: %s - recording again to confirm" % re.search(r"HANG: .*", out).group(0))
+        rc, out = drive()
     if ctx.only is None and not ctx.quick:
         r = vlib.tlc_mc(ctx, "AuthBatch_MC", "AuthBatch_MC_nonblocking.cfg", label="nonblocking", expect_violation=True)
         ctx.cov["design_step_detects_nonblocking_add"] = bool(r["violated"])
